@@ -636,3 +636,80 @@ pub fn ulp_beyond_end(rng: &mut Rng) -> (Coord<f64>, Coord<f64>, Coord<f64>) {
     let (a, b) = if rng.chance(1, 2) { (a, b) } else { (b, a) };
     (a, b, at(t))
 }
+
+/// A plate with a U-shaped (non-convex) hole — a tongue of the plate hangs into the hole — and a partner whose vertices
+/// all lie strictly inside the hole: it meets the plate exactly when one of its edges crosses the tongue (or it covers it).
+pub fn tongue_pair(rng: &mut Rng) -> (Geometry<f64>, Geometry<f64>) {
+    let sym = rng.below(8);
+    let (ox, oy) = (rng.range(-2, 2), rng.range(-2, 2));
+    let tf = |(x, y): (i64, i64)| -> (i64, i64) {
+        let (x, y) = if sym & 1 != 0 { (10 - x, y) } else { (x, y) };
+        let (x, y) = if sym & 2 != 0 { (x, 10 - y) } else { (x, y) };
+        let (x, y) = if sym & 4 != 0 { (y, x) } else { (x, y) };
+        (x + ox, y + oy)
+    };
+    let ring = |v: &[(i64, i64)]| -> Vec<(i64, i64)> {
+        let mut r: Vec<(i64, i64)> = v.iter().map(|&q| tf(q)).collect();
+        r.push(r[0]);
+        r
+    };
+    let shell = ring(&[(0, 0), (10, 0), (10, 10), (0, 10)]);
+    let hole = ring(&[(1, 1), (9, 1), (9, 9), (6, 9), (6, 3), (4, 3), (4, 9), (1, 9)]);
+    let plate = Polygon::new(LineString(ring_variant(rng, &shell)), vec![LineString(ring_variant(rng, &hole))]);
+    let in_hole = |rng: &mut Rng| -> (i64, i64) {
+        loop {
+            let (x, y) = (rng.range(2, 8), rng.range(2, 8));
+            if !((4..=6).contains(&x) && y >= 3) { return (x, y); }
+        }
+    };
+    let (a, b, c3, d) = (in_hole(rng), in_hole(rng), in_hole(rng), in_hole(rng));
+    let cc = |q: (i64, i64)| { let (x, y) = tf(q); c(x, y) };
+    let tri = Triangle(cc(a), cc(b), cc(c3));
+    let partner = match rng.below(8) {
+        0 => Geometry::Triangle(tri),
+        1 => Geometry::Polygon(tri.to_polygon()),
+        2 => Geometry::MultiPolygon(MultiPolygon(vec![tri.to_polygon()])),
+        3 => Geometry::GeometryCollection(GeometryCollection(vec![Geometry::Triangle(tri)])),
+        4 => Geometry::Rect(Rect::new(cc(a), cc(b))),
+        5 => Geometry::Line(Line::new(cc(a), cc(b))),
+        6 => Geometry::LineString(LineString(vec![cc(a), cc(b), cc(c3), cc(d)])),
+        _ => Geometry::Polygon(Polygon::new(LineString(vec![cc((2, 8)), cc((5, 2)), cc((8, 8)), cc((2, 8))]), vec![])),
+    };
+    let plate_g = if rng.chance(1, 4) { Geometry::MultiPolygon(MultiPolygon(vec![plate])) } else { Geometry::Polygon(plate) };
+    (plate_g, partner)
+}
+
+/// A diamond (or a concave kite) with a central hole and a partner that lies in the corners of the shell's bounding box:
+/// outside the shell although inside its box; the nearest ring is the shell, not the hole.
+pub fn box_corner_pair(rng: &mut Rng) -> (Geometry<f64>, Geometry<f64>) {
+    let (ox, oy) = (rng.range(-3, 3), rng.range(-3, 3));
+    let cc = |x: i64, y: i64| c(x + ox, y + oy);
+    let shell: Vec<(i64, i64)> = if rng.chance(2, 3) {
+        vec![(6, 0), (12, 6), (6, 12), (0, 6), (6, 0)]
+    } else {
+        vec![(6, 0), (12, 6), (7, 7), (6, 12), (0, 6), (6, 0)] // a reflex corner towards the top right
+    };
+    let hole: Vec<(i64, i64)> = vec![(5, 5), (7, 5), (6, 7), (5, 5)];
+    let sh: Vec<(i64, i64)> = shell.iter().map(|&(x, y)| (x + ox, y + oy)).collect();
+    let ho: Vec<(i64, i64)> = hole.iter().map(|&(x, y)| (x + ox, y + oy)).collect();
+    let poly = Polygon::new(LineString(ring_variant(rng, &sh)), vec![LineString(ring_variant(rng, &ho))]);
+    let corner = |rng: &mut Rng| -> (i64, i64) {
+        loop {
+            let (x, y) = (rng.range(0, 12), rng.range(0, 12));
+            if (x - 6).abs() + (y - 6).abs() > 6 { return (x, y); }
+        }
+    };
+    let (a, b, c3) = (corner(rng), corner(rng), corner(rng));
+    let partner = match rng.below(6) {
+        0 | 1 | 2 => Geometry::Line(Line::new(cc(a.0, a.1), cc(b.0, b.1))),
+        3 => Geometry::LineString(LineString(vec![cc(a.0, a.1), cc(b.0, b.1), cc(c3.0, c3.1)])),
+        4 => Geometry::Point(Point(cc(a.0, a.1))),
+        _ => Geometry::Triangle(Triangle(cc(a.0, a.1), cc(b.0, b.1), cc(c3.0, c3.1))),
+    };
+    let pg = match rng.below(4) {
+        0 => Geometry::MultiPolygon(MultiPolygon(vec![poly])),
+        1 => Geometry::GeometryCollection(GeometryCollection(vec![Geometry::Polygon(poly)])),
+        _ => Geometry::Polygon(poly),
+    };
+    (pg, partner)
+}
